@@ -104,6 +104,19 @@ def directed_libraries():
 
 
 DEFAULTS = {"int": "7", "long": "8", "double": "2.5", "bool": "true", "string": '"dflt"'}
+# default values by parameter position: odd positions take the ZERO-like value of the type (0, 0.0, false, ""), which must be
+# a default like any other
+ZDEFAULTS = {"int": "0", "long": "0", "double": "0.0", "bool": "false", "string": '""'}
+ZLOG = {"int": "0", "long": "0", "double": "0", "bool": "false", "string": "[]"}
+NLOG = {"int": "7", "long": "8", "double": "2.5", "bool": "true", "string": "[dflt]"}
+
+
+def dflt(t, i):
+    return ZDEFAULTS[t] if i % 2 else DEFAULTS[t]
+
+
+def dlog(t, i):
+    return ZLOG[t] if i % 2 else NLOG[t]
 RETVAL = {"int": "41", "double": "1.25", "bool": "true", "string": 'std::string("res")'}
 
 
@@ -112,7 +125,7 @@ def cxx_params(ps, with_defaults):
     for i, (t, d) in enumerate(ps):
         s = "%s a%d" % (TYPES[t][0], i)
         if d and with_defaults:
-            s += " = " + DEFAULTS[t]
+            s += " = " + dflt(t, i)
         out.append(s)
     return ", ".join(out)
 
@@ -305,8 +318,9 @@ def expected_from_model(m, group, stack_vals, ctor):
         line = "LOG " + f["tag"]
         for (t, sv) in vals:
             line += " " + conv_any(t, sv)
-        for (t, _) in f["params"][len(vals):]:
-            line += " " + {"int": "7", "long": "8", "double": "2.5", "bool": "true", "string": "[dflt]"}[t]
+        for i_, (t, _) in enumerate(f["params"]):
+            if i_ >= len(vals):
+                line += " " + dlog(t, i_)
         out.append(line)
     out.append("RET " + ret)
     return out
@@ -458,8 +472,9 @@ def oracle(group, is_method, is_ctor, vals, got):
                 "single": len(group) == 1 and not any(d for f in group for _, d in f["params"])}
     f = cands[0]
     exp = "LOG " + f["tag"] + "".join(" " + conv(f["params"][k][0], user[k]) for k in range(len(user)))
-    for (t, _) in f["params"][len(user):]:
-        exp += " " + {"int": "7", "long": "8", "double": "2.5", "bool": "true", "string": "[dflt]"}[t]
+    for i_, (t, _) in enumerate(f["params"]):
+        if i_ >= len(user):
+            exp += " " + dlog(t, i_)
     if got[-1].startswith("ERR"):
         return {"what": "a matching call raised a Lua error: " + got[-1], "class": "error-on-match", "method": is_method}
     if exp not in got:
